@@ -341,6 +341,10 @@ class ArgumentParser:
         i = 0
         while i < len(argv):
             arg = argv[i]
+            if arg in ["-I", "-isystem"] and argv[i + 1 : i + 2] == [""]:
+                # An empty directory name is ignored, as compilers do.
+                i += 2
+                continue
             if arg in ["-D", "-I", "-isystem", "-include"] and i + 1 < len(argv):
                 separator = "=" if len(arg) > 2 else ""
                 arg = arg + separator + argv[i + 1]
